@@ -357,14 +357,32 @@ def generate(repo):
     out.item('tm_stop_running', running_value('stop', 'tm_stop_running'))
 
     def tm_stop_test():
+        """ the test of stop()'s leading `if`, literally, in either of the
+        two equivalent layouts `if T: <body>` (nothing after it) and
+        `if T': return` followed by the body; the interpreter of the
+        extracted tree decides that `if` with this expression, whatever its
+        polarity (Props/C02.v: C02_thread_manager_stop) """
         f = tm_fn('stop')
-        i = one([n for n in strip(f.body)], "ThreadManager.stop: body is "
-                "one `if`", f)
-        need(isinstance(i, ast.If) and not strip(i.orelse),
-             "ThreadManager.stop: not a lone `if` without else", i)
+        body = strip(f.body)
+        need(body and isinstance(body[0], ast.If),
+             "ThreadManager.stop: does not start with an `if`", f)
+        i = body[0]
+        need(not strip(i.orelse), "ThreadManager.stop: the `if` has an "
+             "else branch", i)
+        guard_only = (len(strip(i.body)) == 1 and
+                      isinstance(strip(i.body)[0], ast.Return) and
+                      strip(i.body)[0].value is None)
+        need(len(body) == 1 or guard_only,
+             "ThreadManager.stop: neither a lone `if T: ..` nor "
+             "`if T: return` followed by the body", i)
+        for n in body[1:]:
+            need(not any(isinstance(m, ast.If) for m in ast.walk(n)),
+                 "ThreadManager.stop: a second test", n)
         tr = Tr(subst={'self.running': ('running', 'bool', ['running'])})
         t, ty = tr.expr(i.test)
         need(ty == 'bool', "ThreadManager.stop: test not boolean", i)
+        need(tr.free == ['running'] or tr.free == [],
+             f"ThreadManager.stop: the test reads {tr.free}", i)
         return (f"(* ThreadManager.stop: if {U(i.test)}: *)\n"
                 f"Definition tm_stop_test (running : bool) : bool := {t}.\n",
                 {'test': U(i.test)})
